@@ -96,7 +96,12 @@ class DependencyBuilder:
     ) -> Dependencies:
         results = Dependencies()
         for dependant in dependant_types:
-            if isinstance(dependant, pydsdl.UnionType):
+            parts = [dependant]  # type: typing.List[pydsdl.CompositeType]
+            if isinstance(dependant, pydsdl.ServiceType):
+                parts = [dependant.request_type, dependant.response_type]
+            # A delimited (extensible) union is a DelimitedType wrapping the UnionType.
+            parts = [p.inner_type if isinstance(p, pydsdl.DelimitedType) else p for p in parts]
+            if any(isinstance(p, pydsdl.UnionType) for p in parts):
                 # Unions always require integer for the tag field.
                 results.uses_integer = True
                 results.uses_union = True
